@@ -23,7 +23,7 @@ LEVEL = 'translation_validation'
 TIMEOUT_MS = 30000
 
 REWRITES = ['base', 'maxneg', 'perm', 'cmp_flip', 'cmp_neg', 'eq_split', 'bounds_lin', 'bounds_norm', 'loops', 'scale',
-            'set_list', 'set_nested', 'dro', 'setb_lin', 'setb_loops', 'setb_flip']
+            'set_list', 'set_nested', 'dro', 'setb_lin', 'setb_loops', 'setb_flip', 'setfix_bounds', 'setfix_lin', 'setfix_dro']
 
 META = dict(
     functions=['rsome.lp.Vars.__le__/__ge__ (Bounds)', 'rsome.lp.VarSub.__le__/__ge__', 'rsome.lp.Affine.__le__/__ge__/__eq__/__rsub__',
@@ -33,7 +33,7 @@ META = dict(
          'optimum compared with the base; non-trivial = base model feasible and bounded and all variants decided; distinct '
          'by (base seed, rewrite)',
     bounds='base models: 3 here-and-now variables, 1 LDR entry, 2 random components, 2 robust rows + 1 equality row + '
-           'symmetric bounds, box / 1-norm uncertainty sets, affine or bi-affine worst-case objective; 13 rewrites, all '
+           'symmetric bounds, box / 1-norm uncertainty sets, affine or bi-affine worst-case objective; 19 rewrites (incl. a random variable fixed at a non-zero value by an equality, by two bound objects, by two rows, ro and dro), all '
            'pairs in thorough',
     outside='rewrites outside the group of the property (e.g. variable substitutions)',
     assumptions=['the exact optimum is computed by z3 Optimize on the real compiled rows (LP class)'],
@@ -51,7 +51,8 @@ def base_data(seed):
                 e=[r.choice([1, -1, 0.5]) for _ in range(3)], be=r.choice([0, 0.5, -0.5]),
                 rad=r.choice([1, 1.5, 2]), bound=r.choice([2, 3]), norm1=r.choice([True, False, False]),
                 zhi=r.choice([[0.0, 1.0], [0.0, 0.0], [1.5, 0.0], [2.0, 1.0], [-0.5, 1.0]]),
-                ldr=r.choice([True, False]), sense=r.choice(['min', 'max']))
+                ldr=r.choice([True, False]), sense=r.choice(['min', 'max']),
+                wfix=r.choice([0.5, -1.0, 1.5, 0.25]), cw=r.choice([1.0, -1.0, 0.5, 2.0]))
 
 
 def build(d, rw):
@@ -59,7 +60,7 @@ def build(d, rw):
     from rsome import ro, dro
     import rsome as rso
     A = np.array
-    use_dro = 'dro' in rw
+    use_dro = 'dro' in rw or 'setfix_dro' in rw
     m = dro.Model(1) if use_dro else ro.Model()
     perm = 'perm' in rw
     if perm:
@@ -68,6 +69,7 @@ def build(d, rw):
     else:
         x = m.dvar(3)
         z = m.rvar(2)
+    w = m.rvar()       # a random variable FIXED at a non-zero value by the set (equality | pair of bound objects | pair of rows)
     y = None
     if d['ldr']:
         if use_dro:
@@ -97,6 +99,13 @@ def build(d, rw):
             setc = [z >= -rad - 1.5] + setc
         else:
             setc = setc + [z >= -rad - 1.5]
+    wf = d['wfix']
+    if 'setfix_bounds' in rw or 'setfix_dro' in rw:
+        setc = setc + [w >= wf, w <= wf]
+    elif 'setfix_lin' in rw:
+        setc = setc + [1.0 * w >= wf, 1.0 * w <= wf]
+    else:
+        setc = setc + [w == wf]
     if 'set_nested' in rw:
         set_args = (setc[:1], tuple(setc[1:]))       # a list and a tuple as separate arguments
     elif 'set_list' in rw:
@@ -108,6 +117,7 @@ def build(d, rw):
     obj = (A(d['c']) * x).sum() + (A(d['cz']) * z).sum() + x @ A(d['M']) @ z
     if y is not None:
         obj = obj + 0.5 * y
+    obj = obj + d['cw'] * w * x[1] + 0.5 * w
     if 'maxneg' in rw:
         sense = 'max' if sense == 'min' else 'min'
         obj = -obj
@@ -132,7 +142,7 @@ def build(d, rw):
         c1 = (-(s1 * b1) <= -(s1 * lhs1))
     else:
         c1 = (s1 * lhs1 <= s1 * b1)
-    lhs2 = (A(d['a2']) * x).sum() + (A([0.5, -0.5]) * z).sum()
+    lhs2 = (A(d['a2']) * x).sum() + (A([0.5, -0.5]) * z).sum() + d['cw'] * w
     b2 = d['b2']
     if 'cmp_flip' in rw:
         c2 = (b2 <= lhs2)
